@@ -61,6 +61,14 @@ func vRange(lo, hi int) int {
 	}
 	return v
 }
+// vSize: a payload size in lo..hi (the engine explores representatives; the replay driver may sweep the range)
+func vSize(lo, hi int) int {
+	v := int(int64(vNext(fmt.Sprintf("size:%d:%d", lo, hi))))
+	if v < lo || v > hi {
+		panic(vAssumeFail{})
+	}
+	return v
+}
 func vAssume(c bool) {
 	if !c {
 		panic(vAssumeFail{})
